@@ -341,9 +341,6 @@ func c15Run(r *core.Run) {
 	var cookieFindings []string
 	var rotatedAt time.Duration = -1
 
-	oldTransport := http.DefaultClient.Transport
-	defer func() { http.DefaultClient.Transport = oldTransport }()
-
 	w := world.Run(r, world.Options{Cooperative: true, MaxSteps: 100000}, func(w *world.World) {
 		cfg := &config.Config{
 			Tokens: map[string]*config.TokenConfig{"tok": {Type: world.SimTokenType, Retries: retriesCfg, Timeout: timeoutCfg, RateLimit: rateLimit, RateBurst: 2}},
@@ -365,7 +362,7 @@ func c15Run(r *core.Run) {
 		cache := tokencache.New(tok, time.Duration(cacheS)*time.Second)
 		handler := workercmd.ZZNewHandler(cache, []byte(cookie), func() { shutdowns++ })
 		rt = &c15RT{w: w, handler: handler, cur: map[string]*c15Op{}, planned: map[string]*c15Attempt{}, bias: bias, usageMsg: usageMsg}
-		http.DefaultClient.Transport = rt
+		defer useWorkerTransport(rt)()
 		w.TokenPlan = func(tk *world.SimToken, op, key string, n int) world.TokOutcome {
 			task := w.Sched.Current()
 			att := rt.planned[task]
